@@ -14,6 +14,10 @@ var targetFile = map[string]string{
 	"isCallResOK":        "GenFrame",
 	"ChecksumSize":       "GenFrame",
 	"poolIndex":          "GenFrame",
+	// C20: errors.go value mappings, polymorphic in the model's error type
+	"GetContextError":       "GenErrors",
+	"NewWrappedSystemError": "GenErrors",
+	"GetSystemErrorMessage": "GenErrors",
 }
 
 // varFields: constant fields of package-level composite-literal variables.
@@ -73,4 +77,28 @@ var targets = []Target{
 	// checksum.go
 	{Func: "ChecksumType.ChecksumSize", Out: "ChecksumSize", Params: "(t : Z)", Ret: "Z",
 		Hints: map[string]string{"crc32.Size": "4"}},
+	// C20 -- errors.go: which error value reaches the caller.  The error type E and its
+	// observations are parameters (the model instantiates them with its error ADT).
+	{Func: "GetContextError", Out: "GetContextError",
+		Params: "{E : Type} (is_deadline is_canceled : E -> bool) (errTimeout errRequestCancelled : E) (err : E)", Ret: "E",
+		Hints: map[string]string{
+			"err == context.DeadlineExceeded": "(is_deadline err)",
+			"err == context.Canceled":         "(is_canceled err)",
+			"ErrTimeout":                      "errTimeout",
+			"ErrRequestCancelled":             "errRequestCancelled",
+		}},
+	{Func: "NewWrappedSystemError", Out: "NewWrappedSystemError",
+		Params: "{E : Type} (is_sys : E -> bool) (mk_wrapped : Z -> E -> E) (code : Z) (wrapped : E)", Ret: "E",
+		Hints: map[string]string{
+			"SystemError{code: code, msg: fmt.Sprint(wrapped), wrapped: wrapped}": "(mk_wrapped code wrapped)",
+		},
+		SHints: map[string]string{
+			"if se, ok := wrapped.(SystemError); ok {\n\treturn se\n}": "if is_sys wrapped then wrapped else",
+		}},
+	{Func: "GetSystemErrorMessage", Out: "GetSystemErrorMessage",
+		Params: "{E : Type} (is_sys : E -> bool) (sys_msg err_text : E -> list Z) (err : E)", Ret: "list Z",
+		Hints: map[string]string{"err.Error()": "(err_text err)"},
+		SHints: map[string]string{
+			"if se, ok := err.(SystemError); ok {\n\treturn se.Message()\n}": "if is_sys err then sys_msg err else",
+		}},
 }
